@@ -182,6 +182,9 @@ func ccRace(sp ccSpec) (out string, editInside bool, err error) {
 	if err != nil {
 		return "", false, err
 	}
+	if sp.mode == "stop" {
+		return ccRaceStop(w) // (has its own Pop; must not start the one below, which would park holding the store's mutex)
+	}
 	popDone := make(chan popRes, 1)
 	editDone := make(chan error, 1)
 	w.probe.armed.Store(true)
@@ -193,9 +196,6 @@ func ccRace(sp ccSpec) (out string, editInside bool, err error) {
 	var eerr error
 	if sp.mode == "pop2" || sp.mode == "look" {
 		return ccRaceOther(sp, w, popDone)
-	}
-	if sp.mode == "stop" {
-		return ccRaceStop(w)
 	}
 	select {
 	case <-w.probe.inNext:
